@@ -69,6 +69,32 @@ def in_pseudo_domain(m):
         return True
 
 
+def in_pseudo_domain_text(text):
+    """domain decision for a source text: made on the RDKit side (stereo elements RDKit finds whose substituents tie in its own
+    canonical ranking), so that a label the library failed to read cannot hide the molecule from the comparison"""
+    from rdkit import Chem
+    rd = Chem.MolFromSmiles(text)
+    if rd is None:
+        return True
+    ranks = list(Chem.CanonicalRankAtoms(rd, breakTies=False, includeChirality=False))
+    for at in rd.GetAtoms():
+        if at.GetChiralTag() != Chem.ChiralType.CHI_UNSPECIFIED:
+            nb = [ranks[x.GetIdx()] for x in at.GetNeighbors()]
+            if len(set(nb)) < len(nb) or at.GetAtomicNum() != 6:
+                return True
+    for b in rd.GetBonds():
+        if b.GetStereo() != Chem.BondStereo.STEREONONE:
+            for end, other in ((b.GetBeginAtom(), b.GetEndAtom()), (b.GetEndAtom(), b.GetBeginAtom())):
+                nb = [ranks[x.GetIdx()] for x in end.GetNeighbors() if x.GetIdx() != other.GetIdx()]
+                if len(set(nb)) < len(nb):
+                    return True
+            if b.IsInRing() and any(len(r) >= 8 and b.GetBeginAtomIdx() in r and b.GetEndAtomIdx() in r and
+                                    sum(1 for x in rd.GetBonds() if x.GetStereo() != Chem.BondStereo.STEREONONE and
+                                        x.GetBeginAtomIdx() in r and x.GetEndAtomIdx() in r) >= 3 for r in rd.GetRingInfo().AtomRings()):
+                return True  # annulene-type ring stereo (known finding)
+    return False
+
+
 def in_ring_pseudo_domain(m):
     """the part of the pseudo-asymmetric domain where RDKit's own perception drops or re-derives tags (ring para-centres); acyclic
     dependent centres (two separate arms differing by their labels) are handled by both toolkits and stay in the comparison"""
@@ -174,6 +200,19 @@ def check_case(case, rec):
             rec.fail('to-structure', f'{label}: to_rdkit gives {Chem.MolToSmiles(rd_strip(Chem.Mol(rd)))!r}, RDKit reads the '
                                      f'SMILES as {Chem.MolToSmiles(rd_strip(Chem.Mol(ref)))!r}', sig='stereo' if labelled else 'graph')
             return
+    # ---- (1b) against RDKit's reading of the source text itself (not of the library's own output): a configuration the library
+    # dropped while reading would otherwise be invisible.  Only where both readings have the same constitution (tautomer
+    # normalisation may move hydrogens) and outside the pseudo-asymmetric domain
+    src0 = molgen.spec_smiles(spec)
+    if src0 is not None and '|' not in src0 and not in_pseudo_domain_text(src0):
+        ref0 = Chem.MolFromSmiles(src0)
+        if ref0 is not None and ref0.GetNumAtoms() == ref.GetNumAtoms() and \
+                Chem.MolToSmiles(rd_strip(Chem.Mol(ref0)), isomericSmiles=False) == Chem.MolToSmiles(rd_strip(Chem.Mol(ref)), isomericSmiles=False):
+            rec.count('compared with the RDKit reading of the source text')
+            if not rd_same(rd, ref0):
+                rec.fail('to-structure', f'{label}: to_rdkit gives {Chem.MolToSmiles(rd_strip(Chem.Mol(rd)))!r}, RDKit reads the source text '
+                                         f'{src0!r} as {Chem.MolToSmiles(rd_strip(Chem.Mol(ref0)))!r}', sig='source-text')
+                return
     # ---- (2) from_rdkit(to_rdkit(m)) == m
     ok, back = rec.guard('from', from_rdkit_molecule, rd)
     if not ok:
@@ -203,6 +242,16 @@ def check_case(case, rec):
                 sorted((x[:5] for x in molgen.snapshot(back).values()), key=repr):
             rec.fail('round-trip', f'{label}: atoms changed in the round trip', sig='composition')
         return
+    if molgen.map_snapshot(molgen.snapshot(rn), bmp) != molgen.snapshot(back) and \
+            sorted(b.order for *_, b in rn.bonds()) != sorted(b.order for *_, b in back.bonds()):
+        from ..oracles import mcb
+        try:
+            uniq = mcb.analyse(mcb.mol_adj(rn))['unique']
+        except OverflowError:
+            uniq = False
+        if not uniq:
+            rec.count('skip:aromatic form depends on the ring set chosen (minimum cycle basis not unique: C05 known finding)')
+            return
     if molgen.map_snapshot(molgen.snapshot(rn), bmp) != molgen.snapshot(back):
         rec.fail('round-trip', f'{label}: from_rdkit(to_rdkit(m)) = {str(back)!r} differs atom-wise', sig='atomwise')
         return
